@@ -19,6 +19,7 @@ type wire4 struct {
 	baseScenario
 	clients []*Client4
 	nakAll  bool
+	storm   bool
 }
 
 func init() {
@@ -80,17 +81,33 @@ func chains4(w *World, t *simrt.Tape, allowNak bool) []PluginConf {
 func (s *wire4) Plan(w *World) {
 	t := w.T
 	w.Has4 = true
-	w.Chain4 = chains4(w, t, true)
+	// storm: several clients without an address send plain requests at the same instant, so that several replies are on
+	// the link-level unicast path (sendEthernet) at once
+	s.storm = t.Draw(5) == 4
+	w.Chain4 = chains4(w, t, !s.storm)
 	w.Ifaces = defaultIfaces(3)
-	switch t.Draw(3) {
+	switch t.Draw(6) {
 	case 0:
 		w.LSpecs = []ListenerSpec{{IfIndex: 0}}
 	case 1:
 		w.LSpecs = []ListenerSpec{{IfIndex: 2}, {IfIndex: 3}, {IfIndex: 4}}
-	default:
+	case 2:
 		w.LSpecs = []ListenerSpec{{IfIndex: 3}, {IfIndex: 0}}
+	case 3:
+		// a concrete unicast listen address without a zone: not bound to an interface
+		w.LSpecs = []ListenerSpec{{Addr: ifaceAddr4(2 + int(t.Draw(3)))}}
+		w.Probe("wire4.listen_unicast_unbound")
+	case 4:
+		// a unicast address with a zone, and the limited broadcast address without one
+		w.LSpecs = []ListenerSpec{{IfIndex: 3, Addr: ifaceAddr4(3)}, {Addr: net.IPv4bcast.To4()}}
+	default:
+		// a multicast listen address on an interface (listen4 joins the group), the wildcard for the rest
+		w.LSpecs = []ListenerSpec{{IfIndex: 2, Addr: net.IP{224, 0, 0, 12}}, {IfIndex: 0}}
 	}
 	nc := t.Range(1, 6)
+	if s.storm && nc < 3 {
+		nc = 3
+	}
 	for i := 0; i < nc; i++ {
 		c := &Client4{ID: i, MAC: drawMAC(t, 6, i+1), Link: 2 + int(t.Draw(3))}
 		s.clients = append(s.clients, c)
@@ -104,6 +121,18 @@ func (s *wire4) Plan(w *World) {
 	w.Sim.SetPoolStale(t.Draw(2) == 1)
 	n := t.Range(2, 30)
 	var at int64
+	if s.storm {
+		w.Sim.SetPoolReuse(1 + int(t.Draw(2)))
+		w.Probe("wire4.storm")
+		for i := 0; i < n; i++ {
+			if t.Draw(4) == 0 {
+				at += int64(t.Draw(300)) * 1e6
+			}
+			c := s.clients[i%len(s.clients)]
+			w.Sim.After(at, func() { s.sendOne(w, c) })
+		}
+		return
+	}
 	for i := 0; i < n; i++ {
 		switch t.Draw(3) {
 		case 0:
@@ -206,10 +235,25 @@ func genReq4(w *World, c *Client4) (*dhcpv4.DHCPv4, string) {
 func (s *wire4) sendOne(w *World, c *Client4) {
 	t := w.T
 	m, desc := genReq4(w, c)
+	if s.storm {
+		m.OpCode = dhcpv4.OpcodeBootRequest
+		m.HWType = iana.HWTypeEthernet
+		m.ClientHWAddr = append(net.HardwareAddr(nil), c.MAC...)
+		m.GatewayIPAddr, m.ClientIPAddr = net.IPv4zero, net.IPv4zero
+		m.Flags &^= 0x8000
+		if mt := m.MessageType(); mt != dhcpv4.MessageTypeDiscover && mt != dhcpv4.MessageTypeRequest {
+			m.UpdateOption(dhcpv4.OptMessageType(dhcpv4.MessageTypeDiscover))
+			desc = "DISCOVER"
+		}
+	}
 	b := m.ToBytes()
 	kind := fmt.Sprintf("%s op=%d %s hlen=%d flags=%#x gi=%s ci=%s", c, m.OpCode, desc, len(m.ClientHWAddr), m.Flags, m.GatewayIPAddr, m.ClientIPAddr)
 	// byte-level damage in a few datagrams
-	switch t.Draw(10) {
+	dmg := t.Draw(10)
+	if s.storm {
+		dmg = 9
+	}
+	switch dmg {
 	case 0:
 		b = b[:t.Pick(len(b))]
 		kind += " TRUNCATED"
